@@ -1,2 +1,14 @@
 import Rtsp.Props.C20
 #print axioms Rtsp.Url.facts_tie
+#print axioms Rtsp.Url.parse_assemble
+#print axioms Rtsp.Url.parse_toStr
+#print axioms Rtsp.Url.parse_toStr_append
+#print axioms Rtsp.Url.request_fidelity
+#print axioms Rtsp.Url.setup_roundtrip
+#print axioms Rtsp.Url.setup_roundtrip_no_content_base
+#print axioms Rtsp.Url.setup_reaches_media
+#print axioms Rtsp.Url.play_roundtrip
+#print axioms Rtsp.Url.record_media_lookup
+#print axioms Rtsp.Url.no_credentials_on_wire
+#print axioms Rtsp.Url.ex1_inScope
+#print axioms Rtsp.Url.ex2_inScope
